@@ -593,6 +593,62 @@ Fixpoint run_ops (ops : list op) (s : st) : st * list res :=
   | o :: tl => let '(s1, r) := exec o s in let '(s2, rs) := run_ops tl s1 in (s2, r :: rs)
   end.
 
+(** ** The specification of notifications (what C04 promises), stated from the tables only *)
+
+Definition tr_dec : forall a b : target * N, {a = b} + {a <> b}.
+Proof. decide equality; [apply N.eq_dec | apply target_dec]. Defined.
+
+Definition owned {K} (p : pid) (tbl : list (K * pid)) : list K :=
+  map fst (filter (fun x => if pid_dec (snd x) p then true else false) tbl).
+
+(* everything that goes away when process p terminates with reason r: its pid, the names,
+   aliases and events the TABLES attribute to it *)
+Definition gone_terminate (p : pid) (r : N) (s : st) : list (target * N) :=
+  if live p s then
+    (TPid p, r) :: map (fun n => (TName n me, r)) (owned p (s_names s))
+      ++ map (fun a => (TAlias me a, r)) (owned p (s_aliases s))
+      ++ map (fun e => (TEvent e me, r)) (owned p (s_events s))
+  else [].
+
+(* targets that disappear by one operation, with the reason carried by the notification *)
+Definition gone (o : op) (s : st) : list (target * N) :=
+  match o with
+  | OTerminate p r => gone_terminate p r s
+  | OCascade => match s_pending s with (c, r) :: _ => gone_terminate c r s | [] => [] end
+  | OUnregisterName p n => if live p s && ahas N.eq_dec n (s_names s) then [(TName n me, r_unreg)] else []
+  | ODeleteAlias p a =>
+      if live p s && (match aget N.eq_dec a (s_aliases s) with Some q => if pid_dec q p then true else false | None => false end)
+      then [(TAlias me a, r_unreg)] else []
+  | OUnregisterEvent p e =>
+      if live p s && (match aget N.eq_dec e (s_events s) with Some q => if pid_dec q p then true else false | None => false end)
+      then [(TEvent e me, r_unreg)] else []
+  | _ => []
+  end.
+
+(* the process that terminates in this operation (it receives nothing any more) *)
+Definition victim (o : op) (s : st) : option pid :=
+  match o with
+  | OTerminate p _ => Some p
+  | OCascade => match s_pending s with (c, _) :: _ => Some c | [] => None end
+  | _ => None
+  end.
+Definition is_victim (c : pid) (o : op) (s : st) : bool :=
+  match victim o s with Some v => if pid_dec v c then true else false | None => false end.
+
+(* number of copies of note x that operation o must deliver to process c:
+   one iff the target named by x goes away with that reason and c holds that relation *)
+Definition expected (o : op) (s : st) (c : pid) (x : note) : nat :=
+  if memb tr_dec (n_target x, n_reason x) (gone o s)
+     && mem_key (mkkey c (n_target x) (n_down x)) (rels (s_tm s))
+     && live c s && negb (is_victim c o s)
+  then 1%nat else 0%nat.
+
+Fixpoint expected_total (ops : list op) (s : st) (c : pid) (x : note) : nat :=
+  match ops with
+  | [] => 0%nat
+  | o :: tl => (expected o s c x + expected_total tl (fst (exec o s)) c x)%nat
+  end.
+
 (* ------------------------------------------------------------------------------------ *)
 (** * 4. The race: one link/monitor request against the termination of the target's owner *)
 
